@@ -46,6 +46,11 @@ Move(g, d) ==
       [] g.t = "Triangle" -> Tri(Shift(g.a, d), Shift(g.b, d), Shift(g.c, d))
       [] g.t = "GeometryCollection" -> GC([i \in DOMAIN g.gs |-> Move(g.gs[i], d)])
 
+\* long operands (size-gated code paths): a staircase line of n unit steps and the staircase polygon under it
+StairLine(n) == [i \in 1 .. n + 1 |-> <<i \div 2, (i - 1) \div 2>>]
+RECURSIVE StairSteps(_, _)
+StairSteps(n, k) == IF k > n THEN <<>> ELSE << <<n - k + 1, k>>, <<n - k, k>> >> \o StairSteps(n, k + 1)
+StairRing(n) == << <<0, 0>>, <<n, 0>> >> \o StairSteps(n, 1) \o << <<0, 0>> >>
 \* big operands (fixed), 8 x 8 frame
 Big == <<
     Poly(Sq(0, 0, 8), << Rev(Sq(2, 2, 4)) >>),                               \* frame with a 4 x 4 hole
@@ -61,7 +66,9 @@ Big == <<
     Tri(<<0, 0>>, <<8, 0>>, <<0, 8>>),
     GC(<< Poly(Sq(0, 0, 2), <<>>), LS(<< <<4, 0>>, <<8, 4>> >>), Pt(<<0, 8>>) >>),
     MPt(<< <<0, 0>>, <<8, 8>>, <<3, 5>> >>),
-    Ln(<<0, 7>>, <<7, 0>>)
+    Ln(<<0, 7>>, <<7, 0>>),
+    LS(StairLine(140)), Poly(StairRing(70), << Rev(Sq(1, 1, 1)) >>),
+    MPt([i \in 1 .. 300 |-> <<(i * 7) % 13, (i * 11) % 17>>])
 >>
 \* small operands (moved around)
 Small == <<
